@@ -170,6 +170,25 @@ def run_shard(binary, part, cid, tier, verif_seed, idx, shard, nshards, workdir,
     return dict(rc=rc, out=outpath, stats=stats, dir=sd, wall=time.time() - t0, cmd=cmd, shard=shard, checks=checks)
 
 
+def crashed_in_code_under_test(text):
+    """A Go panic that killed the test process, raised inside 0chain code (not in a harness or overlay test file) while a
+    generated case was running: the code under test crashed on a generated input. The first frame of the panicking
+    goroutine outside the Go runtime decides."""
+    m = re.search(r"^panic: .*$", text, re.M)
+    if not m or "[recovered]" in m.group(0):
+        return False
+    tail = text[m.end():]
+    g = re.search(r"^goroutine \d+ \[running\]:$", tail, re.M)
+    if not g:
+        return False
+    for f in re.findall(r"^\t(/\S+\.go):\d+", tail[g.end():], re.M):
+        if "/src/runtime/" in f or "/go/src/" in f or "/pkg/mod/" in f:
+            continue  # Go runtime / standard library / third-party modules: look at who called them
+        base = os.path.basename(f)
+        return "/code/go/0chain.net/" in f and not base.startswith("verif_") and not base.endswith("_test.go")
+    return False
+
+
 def classify(res, part):
     """-> 'pass' | 'violation' | 'inconclusive'"""
     if res["rc"] == 0:
@@ -179,6 +198,8 @@ def classify(res, part):
         return "inconclusive"
     if "VERIF-HARNESS-ERROR" in text:
         return "inconclusive"
+    if crashed_in_code_under_test(text):
+        return "violation"
     if res["rc"] == 66 or "WARNING: DATA RACE" in text:
         return "violation"
     if "VERIF-VIOLATION" in text or "[rapid] failed" in text or "--- FAIL" in text:
@@ -328,7 +349,12 @@ def run_check(cid, tier, only_part=None, failfile=None):
                             violations.append(path)
                             tail = open(res["out"], errors="replace").read()
                             m = re.findall(r"VERIF-VIOLATION[^\n]*", tail)
-                            say("  " + (m[0][:600] if m else tail[-1500:]))
+                            if not m and crashed_in_code_under_test(tail):
+                                pm = re.search(r"^panic: .*$", tail, re.M)
+                                say("  VERIF-VIOLATION property=%s key=crash :: the code under test panicked on a generated case and killed the process: %s" % (cid, pm.group(0)[:300]))
+                                say(tail[pm.start():pm.start() + 1800])
+                            else:
+                                say("  " + (m[0][:600] if m else tail[-1500:]))
                         elif kind == "inconclusive":
                             bad = True
                             say("INCONCLUSIVE property=%s part=%d shard=%d rc=%d (see %s)" % (
